@@ -286,6 +286,14 @@ type recEv struct {
 	ev Ev
 }
 
+// keptEv: the event object itself is kept (a consumer may read it any time later: events are
+// shared objects), together with what its port list said on arrival
+type keptEv struct {
+	e     event.Event
+	ports []string
+	src   string
+}
+
 type recorder struct {
 	mu   sync.Mutex
 	cond *sync.Cond
@@ -296,6 +304,36 @@ type recorder struct {
 	gate    chan struct{}
 	entered chan struct{}
 	gated   bool
+	kept    []keptEv
+}
+
+func readPorts(e event.Event) []string {
+	var out []string
+	e.Range(func(k, v interface{}) bool {
+		if ks, ok := k.(string); ok && ks == "portscan.ports" {
+			if ps, ok := v.([]string); ok {
+				out = append([]string{}, ps...)
+			} else {
+				out = []string{fmt.Sprintf("?%T", v)}
+			}
+		}
+		return true
+	})
+	return out
+}
+
+// changedLater reads every kept portscan event again and reports the first whose port list
+// is no longer what it was on arrival ("" = all unchanged)
+func (r *recorder) changedLater() string {
+	r.mu.Lock()
+	defer r.mu.Unlock()
+	for i, k := range r.kept {
+		now := readPorts(k.e)
+		if strings.Join(now, ",") != strings.Join(k.ports, ",") {
+			return fmt.Sprintf("the port list of portscan event %d (source %s) changed after delivery: %v on arrival, %v at the end of the scenario", i+1, k.src, k.ports, now)
+		}
+	}
+	return ""
 }
 
 func (r *recorder) scanLen() int {
@@ -344,6 +382,7 @@ func (r *recorder) Send(e event.Event) {
 			return true
 		})
 		r.scan = append(r.scan, recEv{at: time.Now(), ev: ev})
+		r.kept = append(r.kept, keptEv{e: e, ports: append([]string{}, ev.Ports...), src: ev.SIP})
 		if r.gate != nil && !r.gated {
 			r.gated = true
 			hold = true
@@ -539,6 +578,9 @@ func collect(rec *recorder, base, marker, rounds int, skip string) ([][]Ev, stri
 		if time.Since(start) > 120*time.Second {
 			return nil, "portscan events kept arriving for 120 s"
 		}
+	}
+	if msg := rec.changedLater(); msg != "" {
+		return nil, msg
 	}
 	rec.mu.Lock()
 	defer rec.mu.Unlock()
